@@ -135,13 +135,13 @@ def lower_size(c):
     return "l"
 
 
-def statement_tokens_contract(p, resolver, shape, size_text, mnemonic, operand_tokens):
+def statement_tokens_contract(p, resolver, shape, size_text, mnemonic, operand_value):
     """Operand syntax -> addressing mode (the link between the source text's tokens and the table obligations): for each
     operand shape of the statement, with or without a size suffix in either letter case, the real parse_opcode and
     generate_opcode yield ONE OpcodeNode whose (mode, index) denotes -- through isa65816.form_of, the same function the table
     obligations use -- exactly the 65c816 form the syntax denotes (vf/specs/syntax.py) at every width, or nothing at all
     (such a node is rejected: table obligations `only_isa_instructions`); the suffix is carried lower-cased, the mnemonic
-    lower-cased, and the operand expression is exactly the operand's tokens, in order."""
+    lower-cased, and the operand evaluates to the value of the expression written between the brackets / after the `#`."""
     try:
         a = parse_opcode(p)
     except (ParserSyntaxError, KeyError):
@@ -161,8 +161,8 @@ def statement_tokens_contract(p, resolver, shape, size_text, mnemonic, operand_t
     if shape == "implied":
         check("no_operand", node.value_node is None)
     else:
-        check("operand_is_the_operand_tokens", [t.token for t in node.value_node.expression.tokens] == operand_tokens)
-        check("operand_resolver", node.value_node.resolver is resolver and node.resolver is resolver)
+        # the operand is the expression written in the statement: its value (real eval_expression, e and f bound to ANY integers)
+        check("operand_value_is_the_written_expression", node.value_node.get_value() == operand_value)
 
 
 def statement_bytes_contract(p, resolver, addr, shape, size_text, mnemonic, v):
